@@ -26,6 +26,8 @@ static void PAR(const std::string& label,const std::function<void(int,int,vf::Ct
 // cheap failure path: the witness strings (snprintf) are only built while a class still lacks its 3 witnesses
 #define LFAIL(C,CLS,GOT,WANT) do{ if(!vf::cfg().san_only){ std::string cls_=(CLS); vf::OpStat& s_=(C).cur(); auto it_=s_.viol.find(cls_); \
 	if(it_!=s_.viol.end() && it_->second.wit.size()>=3) it_->second.count++; else (C).fail(cls_,GOT,WANT); } }while(0)
+// optional extra stride for the 2^32 sweeps (used by reduced re-runs, e.g. under sanitizers): --x-stride N
+static inline u64 xstride(){ auto it=vf::cfg().extra.find("stride"); if(it==vf::cfg().extra.end()) return 1; u64 s=strtoull(it->second.c_str(),0,10); return s<1? 1: s; }
 static inline u64 mixseed(const std::string& label,u64 a){ return vf::cfg().seed*0x9e3779b97f4a7c15ULL ^ vf::hash_str(label.c_str()) ^ (a+1)*0xD6E8FEB86659FD93ULL; }
 template<class T> static inline T stepulp(T x,int j){ typedef typename fp<T>::I I; I o=ord(x)+(I)j; T r=from_ord<T>(o); return isfinite_b(r)? r: x; }
 static const std::vector<float>& finite_lattice(){ static const std::vector<float> L=[]{ std::vector<float> v; for(float x: float_lattice()) if(isfinite_b(x)) v.push_back(x); return v; }(); return L; }
@@ -83,7 +85,8 @@ DEF_INT(Int2x32) DEF_INT(Uint2x32) DEF_INT(I3x10_1x2) DEF_INT(U3x10_1x2) DEF_INT
 template<class F> static void drive_words(const char* nm,vf::Op& RT){
 	if(!vf::want(RT)) return;
 	const int N=F::N, B=totalbits<F>(); const std::string L=nm; const bool th=vf::thorough(); const u64 seed=vf::cfg().seed;
-	if(B<=20 || (th && B<=32)){ SWEEP(L+".all",1ULL<<B,1u<<14,[&](vf::Ctx& c,u64 lo,u64 hi){ for(u64 w=lo;w<hi;w++){ InW in{}; split<F>(w,in.code); vf::run(c,RT,in);} }); return; }
+	if(B<=20 || (th && B<=32)){ const u64 xs= B>20? xstride(): 1, ph= xs>1? (seed*2654435761ULL)%xs: 0;
+		SWEEP(L+".all",(1ULL<<B)/xs,1u<<14,[&](vf::Ctx& c,u64 lo,u64 hi){ for(u64 i=lo;i<hi;i++){ InW in{}; split<F>(i*xs+ph,in.code); vf::run(c,RT,in);} }); return; }
 	auto ctx_fill=[&](InW& in,int ctx,vf::Rng& r){ for(int j=0;j<N;j++) in.code[j]= ctx==0? 0u: ctx==1? (u32)fmask<F>(j): (u32)(r.u32_()&fmask<F>(j)); };
 	for(int k=0;k<N;k++){
 		const int wd=F::width(k); const std::string lk=L+".f"+std::to_string(k);
@@ -371,7 +374,8 @@ static void workload(){
 		PAR("F2x11.lay",[&](int t,int TT,vf::Ctx& c){ for(u64 i=t;i<n;i+=TT){ InXf in{}; for(int q=0;q<3;q++) in.x[q]=gen_sf(c.rng,q); vf::run(c,F2x11_1x10_layout,in);} }); }
 	// ---- F3x9_E1x5
 	if(vf::want(F3x9_E1x5_roundtrip)){
-		if(th) SWEEP("F3x9.rt.all",1ULL<<32,1u<<16,[&](vf::Ctx& c,u64 lo,u64 hi){ for(u64 w=lo;w<hi;w++){ InW in{}; split<SE4>(w,in.code); vf::run(c,F3x9_E1x5_roundtrip,in);} });
+		if(th){ const u64 xs=xstride(), ph= xs>1? (seed*2654435761ULL)%xs: 0;
+			SWEEP("F3x9.rt.all",(1ULL<<32)/xs,1u<<16,[&](vf::Ctx& c,u64 lo,u64 hi){ for(u64 i=lo;i<hi;i++){ InW in{}; split<SE4>(i*xs+ph,in.code); vf::run(c,F3x9_E1x5_roundtrip,in);} }); }
 		else {
 			// every (mantissa code, exponent) of each mantissa field, other mantissas in {0, 511, random, random below this one}
 			for(int k=0;k<3;k++){ const std::string lk="F3x9.rt.f"+std::to_string(k);
